@@ -25,7 +25,7 @@ RULE = ("Connected oriented triangulated surfaces built by the harness: grids, c
         "cut_graph, cut_adj, ref_vertex are read in a drawn order followed by 0-4 re-reads, every read of one result must agree and "
         "the oracles use the last values; the singularities argument (list / tuple / int64 array / vertex attribute) and the "
         "detector's sets must be unchanged afterwards; inputs uniformly scaled by 1e-6..1e6 and/or translated by 1e3 / 1e6 times their extent; faces given as lists / tuples / numpy rows; the library switches config.sort_neighborhoods and config.display_duplicate_attribute_warning are drawn per case. "
-        "1 case in 5 has 1-3 (or 2 x genus) vertices that no face uses, at the first / a middle / the last id; 1 in 3 reads the results from copy.copy / copy.deepcopy of the cutter. Sub-check cut_twice (half of its cases start and run both cutters before any result of either is read) cuts the same mesh object a second time with an independent cutter "
+        "1 case in 5 has 1-3 (or 2 x genus) vertices that no face uses, at the first / a middle / the last id; 1 in 3 reads the results from copy.copy / copy.deepcopy of the cutter. 2 in 5 run the same cutter object twice (run(); run() or cutter(); run()) before any result is read; the singular vertices are handed over as list / tuple / numpy array / vertex attribute / set / range / one-shot iterator / generator. Sub-check cut_twice (half of its cases start and run both cutters before any result of either is read) cuts the same mesh object a second time with an independent cutter "
         "(other / same / subset / empty singularity set, features on or off in either order, detector reused or re-run), applies "
         "every oracle to the second result too and checks that the input mesh's vertices and faces are unchanged. "
         "non-trivial = genus>0 or >=2 distinct singularities or >=2 border loops; distinct = distinct realised case.")
@@ -423,7 +423,7 @@ def cut_case(draw, big=False, twice=False):
         V = (np.array(V, dtype=float) * sc).tolist()
         tags = tags + [f"scale={sc:g}"]
     case = {"V": V, "F": F, "tags": tags, "singus": S, "mode": mode, "features": feat, "hard": hard,
-            "singu_form": draw(st.sampled_from(["list", "list", "attribute", "numpy", "tuple", "list"])),
+            "singu_form": draw(st.sampled_from(["list", "list", "attribute", "numpy", "tuple", "list", "iterator", "generator", "set", "range-or-list"])),
             "verbose": draw(st.booleans()), "detector_verbose": draw(st.integers(0, 3)) == 0,
             "mesh_form": draw(st.sampled_from(["list", "list", "tuple", "numpy"])),
             "reads": draw(read_order()),
@@ -431,6 +431,8 @@ def cut_case(draw, big=False, twice=False):
             "config": {"sort_neighborhoods": draw(st.integers(0, 3)) > 0,
                        "display_duplicate_attribute_warning": draw(st.integers(0, 2 if twice else 5)) == 0}}
     case["clone"] = draw(st.sampled_from(["no", "no", "no", "no", "copy", "deepcopy"]))
+    # the same cutter object is run a second time before any result is read (run(); run()  or  cutter(); run(): Worker.__call__ = run)
+    case["rerun"] = draw(st.sampled_from(["no", "no", "no", "run-run", "call-run"]))
     if twice:
         # a second, independent cutter on the very same mesh object
         how = draw(st.sampled_from(["other", "other", "same", "subset", "empty"]))
@@ -659,11 +661,15 @@ def _snapshot(M, name, val):
     raise HarnessError("unknown result " + name)
 
 
-def start_cut(ctx, M, m, fd, sing, pre, verbose=False):
+def start_cut(ctx, M, m, fd, sing, pre, verbose=False, rerun="no"):
     """builds a cutter on mesh object m and runs it (stdout captured). Returns the state for finish_cut, or None."""
     # arguments are snapshotted: the cutter may not change them
-    if isinstance(sing, (list, tuple, np.ndarray)):
+    if isinstance(sing, (list, tuple, np.ndarray, range)):
         sing_before = [int(x) for x in sing]
+    elif isinstance(sing, (set, frozenset)):
+        sing_before = sorted(int(x) for x in sing)
+    elif not hasattr(sing, "__getitem__"):  # one-shot iterable (iterator / generator): consumed by the constructor, nothing to compare
+        sing_before = None
     else:                                   # vertex attribute, as the in-repo callers pass it
         sing_before = {int(k): int(sing[k]) for k in sing}
     fd_before = None if fd is None else (set(fd.feature_edges), set(fd.feature_vertices))
@@ -671,7 +677,9 @@ def start_cut(ctx, M, m, fd, sing, pre, verbose=False):
     with contextlib.redirect_stdout(sink):
         ok, cutter = ctx.call(pre + "cutter:init", M.processing.SingularityCutter, m, sing, features=fd, verbose=verbose)
         if ok:
-            ok, _ = ctx.call(pre + "cutter:run", cutter.run)
+            ok, _ = ctx.call(pre + "cutter:run", cutter if rerun == "call-run" else cutter.run)
+        if ok and rerun != "no":
+            ok, _ = ctx.call(pre + "cutter:run-again", cutter.run)
     if not ok:
         return None
     if verbose:
@@ -776,8 +784,12 @@ def finish_cut(ctx, M, m, V, F, S, feat, fd, sing, pre, info, state, reads=None,
         ctx.check(got == want, pre + "cut_graph:geometry", "segments of cut_graph are not the segments of the cut edges | " + info)
 
     # ---- the arguments are left as they were
-    if isinstance(sing_before, dict):
+    if sing_before is None:
+        sing_after = None
+    elif isinstance(sing_before, dict):
         sing_after = {int(k): int(sing[k]) for k in sing}
+    elif isinstance(sing, (set, frozenset)):
+        sing_after = sorted(int(x) for x in sing)
     else:
         sing_after = [int(x) for x in sing]
     ctx.check(sing_after == sing_before, pre + "argument-changed:singularities", f"singularities argument was {sing_before}, is now {sing_after}")
@@ -867,6 +879,17 @@ def fn(case, ctx):
         sing = np.array(S, dtype=np.int64)
     elif form == "tuple":
         sing = tuple(S)
+    elif form == "iterator":                # one-shot iterables: the constructor documents "indices of the singular vertices" and
+        sing = iter(list(S))                # copies any non-list argument element by element
+    elif form == "generator":
+        sing = (int(s) for s in list(S))
+    elif form == "set":
+        sing = set(S)
+    elif form == "range-or-list":
+        sing = range(min(S), max(S) + 1) if S and sorted(set(S)) == list(range(min(S), max(S) + 1)) and len(set(S)) == len(S) else list(S)
+        if isinstance(sing, range):
+            S = list(sing)
+            ctx.label("form=range(realised)")
     else:
         sing = list(S)
     verbose = bool(case.get("verbose"))
@@ -881,7 +904,9 @@ def fn(case, ctx):
     ctx.label("results-read-from=" + {"no": "the cutter", "copy": "copy.copy(cutter)", "deepcopy": "copy.deepcopy(cutter)"}[clone])
     sec = case.get("second")
     inter = (sec or {}).get("interleaved", "no")          # "no" | "first-read-first" | "second-read-first"
-    st1 = start_cut(ctx, M, m, fd, sing, "", verbose=verbose)
+    rerun = case.get("rerun", "no")
+    ctx.label("same-cutter-run-twice=" + rerun)
+    st1 = start_cut(ctx, M, m, fd, sing, "", verbose=verbose, rerun=rerun)
     if st1 is None:
         return
     first_args = (ctx, M, m, V, F, S, feat, fd, sing, "", info + (" (a second cutter ran on the same mesh before these results were read)" if inter != "no" else ""), st1)
